@@ -303,9 +303,8 @@ void ModeArgs(Tape& t, Outcome& o) {
         int div = t.chance(200) ? t.range(-1, 8) : SpecialInt(t); if (div > 64) div = 64;
         double h = D(), tw = D(); vec2 top(D(), D());
         m = Manifold::Extrude(ps, h, div, tw, top);
-        // known finding F24: exactly one zero component of scaleTop collapses the
-        // top to a segment and leaves an unreferenced vertex in the export
-        if ((top.x == 0) != (top.y == 0)) { oracle::TopoReport tr0 = oracle::CheckManifold(m); if (!tr0.ok && tr0.sig == "topo:unreferenced-vert") { o.known("F24-extrude-one-zero-scale", "malformed:topo:unreferenced-vert", tr0.msg); return; } }
+        // (F24, an unreferenced vertex after Extrude with exactly one zero scaleTop component, no longer
+        // reproduces on the current tree: it is listed as fixed and is not routed any more)
       }
       else m = Manifold::Revolve(ps, smallSeg(), D());
       break;
